@@ -685,7 +685,12 @@ class Engine:
             self.emit("raises-when-documented", st, z3.Not(B(cond)), tag)
         if K.ensures is None:
             return
+        c.calls = tuple(st.env.get("__ghost_calls__", ()))
         val = self.adapt_result(val, K, c)
+        if getattr(K.cls, "ghost_outputs", None):
+            # the function's own ghost outputs at this return point: a witness built by the contract from the
+            # locals and from the ghost outputs of the contract calls made on this path
+            c._gout = K.cls.ghost_witness(c, _NS(dict(self.params, **dict(st.env, __params__=self.params))), c.calls)
         hy = State(st.env, list(st.pc))
         post_lemmas = getattr(K.cls, "post_lemmas", None)
         if post_lemmas is not None:
@@ -1631,6 +1636,11 @@ class Engine:
             if v is None:
                 return default
             t = Z(self.ev(v, st))
+            if t.eq(n):
+                return n  # s[a:len(s)]: the length is non-negative, nothing to clamp
+            tc = z3.simplify(t)
+            if z3.is_int_value(tc) and tc.as_long() >= 0:
+                return z3.simplify(z3.If(tc > n, n, tc))
             t = z3.If(t < 0, t + n, t)
             return z3.If(t < 0, z3.IntVal(0), z3.If(t > n, n, t))
 
@@ -1639,6 +1649,17 @@ class Engine:
         ln = z3.If(hi > lo, hi - lo, z3.IntVal(0))
         lo_c = z3.simplify(lo)
         at = (lambda i: seq.at(i)) if (z3.is_int_value(lo_c) and lo_c.as_long() == 0) else (lambda i: seq.at(lo + i))
+        named = getattr(self.contract.cls, "named_slices", False) if self.contract is not None else False
+        probe = fresh("slp")
+        if named and not self.concrete and not (z3.is_int_value(lo_c) and lo_c.as_long() == 0) and isinstance(seq.at(probe), IntV) and dsl._pat_ok(Z(seq.at(probe))):
+            # NAMED SLICE (opt-in per contract): the shifted window is a fresh function with its definition stated
+            # in both directions, so that facts about the window and facts about the base trigger each other
+            # (E-matching does not see that  base(lo + i)  and  base(j)  are the same term for j = lo + i)
+            new = fresh_fun("slice", z3.IntSort(), z3.IntSort())
+            m = fresh("sm")
+            st.assume(z3.ForAll([m], z3.Implies(z3.And(m >= 0, m < ln), new(m) == Z(seq.at(lo + m))), patterns=[new(m)], qid="named-slice"))
+            st.assume(z3.ForAll([m], z3.Implies(z3.And(m >= lo, m < lo + ln), Z(seq.at(m)) == new(m - lo)), patterns=[Z(seq.at(m))], qid="named-slice-back"))
+            at = lambda i, new=new: IntV(new(Z(i)))  # noqa: E731
         if isinstance(base, ListV):
             return ListV(ln, at)  # a slice of a list is a new list
         return SeqV(ln, at, seq.kind if seq.kind in ("tuple", "list") else "tuple")
@@ -2338,6 +2359,9 @@ class Engine:
                 return ("t", a.t.get_id())
             if isinstance(a, TupV):
                 return ("tup", tuple(_ident(v) for v in a.items))
+            if isinstance(a, ListV):
+                # a mutable list: the same object with other content is another argument value
+                return ("list", id(a), id(a.fn), a.n.get_id())
             return ("py", repr(a))
 
         if K.value is not None:
@@ -2351,10 +2375,14 @@ class Engine:
             return out if isinstance(out, V) else (BoolV(out) if isinstance(out, bool) else IntV(out))
         mkey = (name, (getattr(self.contract.cls, "use_views", None) or {}).get(K.name) if self.contract is not None else None) + tuple(_ident(v) for v in vals)
         if mkey in self.call_memo:
-            res, facts = self.call_memo[mkey]
+            res, facts, _g = self.call_memo[mkey]
         else:
             tmp = State()
             res = self.fresh_result(K, tmp)
+            # GHOST OUTPUTS: functions the callee's postcondition speaks about in addition to the result (e.g. where
+            # each input position went); for the caller they are fresh symbols constrained by that postcondition
+            gfuns = {g: fresh_fun("gout_" + g, z3.IntSort(), z3.IntSort()) for g in (getattr(K.cls, "ghost_outputs", None) or ())}
+            c._gout = {g: (lambda x, f_=f_: IntV(f_(Z(x)))) for g, f_ in gfuns.items()}
             view = (getattr(self.contract.cls, "use_views", None) or {}).get(K.name) if self.contract is not None else None
             if view is not None:
                 # the caller asked for a named VIEW of the callee's postcondition: a weaker formula that the
@@ -2372,12 +2400,18 @@ class Engine:
                 facts = facts + [B(K.derived(c, *vals, res))] + c.side
                 c.side = []
                 self.rules_used.add(f"{K.derived_rule} (derived facts of {K.name})")
-            self.call_memo[mkey] = (res, list(facts))
+            self.call_memo[mkey] = (res, list(facts), c._gout)
+            c._gout = None
+        gout = self.call_memo[mkey][2]
+        if st is not None and gout:
+            st.env["__ghost_calls__"] = tuple(st.env.get("__ghost_calls__", ())) + (dict(gout, __callee__=K.name),)
         if st is not None:
             for f in facts:
                 st.assume(f)
         else:
             c.side.extend(facts)
+        if isinstance(res, ListV):
+            res = res.copy()  # every call returns its own list object: mutating one result leaves the other alone
         return res
 
     def fresh_result(self, K, st):
